@@ -191,7 +191,13 @@ def big_pool(rng, extra):
 TEXT_ALPHABET = "abcXYZ019 _-/.:@"
 NON_ASCII = ["é", "héllo", "üüü", "日本", "\x7f", "\x80", "a€b", "\U0001f511",
              "naïve-key", "ÿ" * 8, "\u07ff", "\u0800", "\ud7ff", "\ue000", "\uffff", "\U00010000", "\U0010ffff",
-             "é" * 4, "日" * 8, "\ud800", "a\udfffb"]
+             "é" * 4, "日" * 8, "\ud800", "a\udfffb",
+             # characters that some codec, normaliser or "tolerant" reader treats specially: a byte order mark first,
+             # in the middle, twice; other zero-width / format characters; NUL; line separators; decomposed letters;
+             # non-characters; the replacement character
+             "\ufeffabc", "\ufeff", "a\ufeffb", "\ufeff\ufeffx", "\ufffeabc", "\u200babc", "abc\u200d", "\u2060x", "\u00adsoft",
+             "\x00abc", "abc\x00", "line\u2028sep", "para\u2029sep", "a\r\nb", "\r", "\n", "\t tab", " lead", "trail ",
+             "e\u0301", "\u212b", "\ufb01", "\uff11", "\ufdd0", "\ufffd", "\u0130stanbul", "\u00df", "\U0001f468\u200d\U0001f469"]
 
 
 def text_pool(rng, extra):
